@@ -410,6 +410,9 @@ type calleeInfo struct {
 	file   *ast.File
 	obj    types.Object
 	isDecl bool
+	// closures: once every call is inlined the variable would be unused, so `_ = name` is added after its definition
+	keepAfter token.Pos
+	varName   string
 }
 
 func (in *inliner) fileOf(pos token.Pos) (*ast.File, string) {
@@ -539,7 +542,7 @@ func (in *inliner) closureOf(v *types.Var) *calleeInfo {
 		return nil
 	}
 	f, _ := in.fileOf(lit.Pos())
-	return &calleeInfo{name: declName(fd) + "$" + v.Name(), typ: lit.Type, body: lit.Body, node: lit, file: f, obj: v}
+	return &calleeInfo{name: declName(fd) + "$" + v.Name(), typ: lit.Type, body: lit.Body, node: lit, file: f, obj: v, keepAfter: lit.End(), varName: v.Name()}
 }
 
 // resolve returns the callee of call if it is a new helper of this package.
@@ -944,6 +947,7 @@ func (in *inliner) fileEdits(f *ast.File, fname string, src []byte) []textEdit {
 	})
 	var edits []textEdit
 	usedHost := map[ast.Stmt]bool{}
+	kept := map[types.Object]bool{}
 	var taken [][2]token.Pos
 	ast.Inspect(f, func(n ast.Node) bool {
 		call, ok := n.(*ast.CallExpr)
@@ -1002,6 +1006,16 @@ func (in *inliner) fileEdits(f *ast.File, fname string, src []byte) []textEdit {
 		}
 		usedHost[host] = true
 		usedHost[s0] = true
+		if c.keepAfter.IsValid() && !kept[c.obj] {
+			kept[c.obj] = true
+			if _, kf := in.fileOf(c.keepAfter); kf == fname {
+				off := in.offset(c.keepAfter)
+				marker := "; _ = " + c.varName + " /*inl-keep*/"
+				if !strings.Contains(string(src[off:min(len(src), off+len(marker)+2)]), "/*inl-keep*/") {
+					edits = append(edits, textEdit{off: off, end: off, text: marker, prio: 2})
+				}
+			}
+		}
 		taken = append(taken, [2]token.Pos{call.Pos(), call.End()})
 		hostOff := in.offset(host.Pos())
 		pre := txt + "\n" + in.lineDirective(host.Pos())
